@@ -7,8 +7,9 @@ CONSTANTS Keys = {1, 2, 3}
           Rej = FALSE
           EK = 0
           TName = "IntSet"
+          NHeld = 0
 VIEW View
 ACTION_CONSTRAINT DumpT
 INVARIANTS SetOK RefuseOK KeysBagExact
-PROPERTIES Frame PutStores RefusalInert RemoveExact ClearEmpties PutAllIsPuts ReadOnlyKeeps SizeLaw
+PROPERTIES Frame PutStores RefusalInert RemoveExact ClearEmpties PutAllIsPuts ReadOnlyKeeps OthersKept PutAllFromIsPuts SizeLaw
 CHECK_DEADLOCK FALSE
